@@ -87,15 +87,39 @@ def check(model, rep):
         rep.ob('R20.2', dispa, '%s: for %s in range(shape[0])' % (label, iv), ok_rng, 'loop ranges over %s' % src(lp.iter), line=lp.lineno)
         if test == 'dims==1':
             # exactly one format of matrix[i] appended per iteration
+            elem = '%s[%s]' % (mat, iv)
+            replaced = []
+
             class Cnt(EventDomain):
+                # user state: (formats so far, names holding exactly matrix[i], names that held it and were overwritten)
+                def on_store(s, target, value, stmt, state):
+                    (n_, al, gone), consts = state
+                    if isinstance(target, ast.Name):
+                        if value is not None and src(value) == elem:
+                            al, gone = al | {target.id}, frozenset(g for g in gone if g[0] != target.id)
+                        elif target.id in al:
+                            al, gone = al - {target.id}, gone | {(target.id, src(stmt)[:60], stmt.lineno)}
+                    return (((n_, al, gone), consts),)
+
                 def on_call(s, call, state):
-                    n_, consts = state
-                    if isinstance(call.func, ast.Attribute) and call.func.attr == 'format' and call.args and src(call.args[0]) == '%s[%s]' % (mat, iv):
-                        return ((min(n_ + 1, 2), consts),)
+                    (n_, al, gone), consts = state
+                    if isinstance(call.func, ast.Attribute) and call.func.attr == 'format' and call.args:
+                        a0 = call.args[0]
+                        if src(a0) == elem or (isinstance(a0, ast.Name) and a0.id in al):
+                            return (((min(n_ + 1, 2), al, gone), consts),)
+                        if isinstance(a0, ast.Name):
+                            for g in gone:
+                                if g[0] == a0.id:
+                                    replaced.append(g)
                     return (state,)
-            ends, brks, exits = Flow(Cnt()).run_loop_body(lp.body, {(0, frozenset())})
-            counts = sorted({e[0] for e in ends})
-            rep.ob('R20.2', dispa, 'dims==1: one formatted element per index', counts == [1] and not brks and not exits,
+            ends, brks, exits = Flow(Cnt()).run_loop_body(lp.body, {((0, frozenset(), frozenset()), frozenset())})
+            counts = sorted({e[0][0] for e in ends})
+            if replaced:
+                g = sorted(set(replaced), key=lambda x: x[2])[0]
+                rep.ob('R20.2', dispa, 'dims==1: the formatted value is the element itself', False,
+                       'on some path the element held in `%s` is overwritten (`%s`, line %d) before it is formatted: the rendered number is not the '
+                       'array element rounded to nd decimals' % (g[0], g[1], g[2]), line=g[2])
+            rep.ob('R20.2', dispa, 'dims==1: one formatted element per index', (counts == [1] or bool(replaced)) and not brks and not exits,
                    'formats of %s[%s] per iteration on the different paths: %s' % (mat, iv, counts), line=lp.lineno)
             fm = [n for n in ast.walk(lp) if isinstance(n, ast.Assign) and src(n.targets[0]) == 'fmat']
             ok_f = len(fm) == 1 and src(fm[0].value).replace(' ', '').replace('"', "'") == "'{:'+str(%s+6)+'.'+str(t_nd)+'f}'" % nd
